@@ -21,7 +21,8 @@ theorem table_vouched : Generated.table.Vouched = true := by decide
 theorem flow_facts :
     Generated.facts.loadOrder = true ∧ Generated.facts.loadsOrder = true ∧
     Generated.facts.npLoadNoPickle = true ∧ Generated.facts.importObjIsGetattrOfImport = true ∧
-    Generated.facts.checkTypeIsMembership = true := by decide
+    Generated.facts.checkTypeIsMembership = true ∧ Generated.facts.gettypeIsImportObj = true ∧
+    Generated.facts.baseNodeMethodsAsModelled = true := by decide
 
 variable (tbl : Table)
 
